@@ -252,6 +252,14 @@ def scan_filter_cases():
                             [b'dbsize'], [b'keys', b'*'], [b'select', b'1'], [b'scan', b'0', b'count', b'100'], [b'scan', b'0', b'match', b'k*', b'type', b'list']])
         yield Always(mk + other + [[b'scan', b'0'], [b'flushdb'], [b'scan', b'0'], [b'set', b'n1', b'1'], [b'scan', b'0'], [b'del', b'n1'], [b'scan', b'0'], [b'expire', b'ka', b'1'],
                             ('adv', 2000), [b'scan', b'0', b'count', b'100'], [b'rename', b'kb', b'kbb'], [b'scan', b'0', b'count', b'100'], [b'move', b'kl', b'2'], [b'scan', b'0', b'count', b'100']])
+    # literal MATCH patterns (no metacharacter): the element is found on the page it sorts to, in every variant, whatever COUNT
+    big = [[b'sadd', b'bs', b'm1', b'm2', b'm3', b'm4'], [b'hset', b'bh', b'm1', b'1', b'm2', b'2', b'm3', b'3'], [b'zadd', b'bz', b'1', b'm1', b'2', b'm2', b'3', b'm3']]
+    for pat in (b'm2', b'm3', b'nope', b'ka', b'kz', b'm\\2', b'bs'):
+        for cnt in (b'1', b'2', b'10'):
+            for cur in (b'0', b'1', b'2'):
+                yield Always(mk + big + [[b'scan', cur, b'match', pat, b'count', cnt], [b'sscan', b'bs', cur, b'match', pat, b'count', cnt],
+                                         [b'hscan', b'bh', cur, b'match', pat, b'count', cnt], [b'zscan', b'bz', cur, b'match', pat, b'count', cnt],
+                                         [b'scan', cur, b'match', pat, b'count', cnt, b'type', b'set']])
     for cnt in (b'9223372036854775807', b'9223372036854775806', b'4611686018427387904'):
         for cur in (b'0', b'1', b'3'):
             yield Always(mk + [[b'scan', cur, b'match', b'*', b'count', cnt], [b'scan', cur, b'type', b'string', b'count', cnt], [b'scan', cur, b'count', cnt],
@@ -306,11 +314,10 @@ def run_cases(res, prop, cases, tier, seed, t_end, sample, observers=(), scope=N
             s, d = Cp.replay_events(evs, version, seed, observers)
             res.absorb(s)
             res.cells.add((label, Cn.name_of(evs[-1][2]) if evs[-1][0] == 'cmd' else '', len(case)))
-            if s.violations:
-                v = s.violations[0]
-                res.add({'kind': 'monitor', 'property': v.prop, 'clause': v.clause, 'detail': v.detail, 'matrix': label, 'version': version,
-                                     'seed': seed, 'events': [corr.ev_json(e) for e in evs]})
-                return
+            for v in s.violations:
+                if res.add({'kind': 'monitor', 'property': v.prop, 'clause': v.clause, 'detail': v.detail, 'matrix': label, 'version': version,
+                            'seed': seed, 'events': [corr.ev_json(e) for e in evs]}):
+                    return
             if d is not None:
                 verdict = Cp.judge(d, scope)
                 if verdict == 'out-of-scope':
@@ -454,3 +461,18 @@ def alltype_cases(rng, n):
                   [b'brpoplpush', k, b'H_list', b'1'], [b'brpoplpush', b'H_list', k, b'1'], [b'rpoplpush', k, k], [b'smove', k, b'H_set', b'a'], [b'sunionstore', b'd', k, b'H_set'],
                   [b'zunionstore', b'd', b'2', k, b'H_zset'], [b'pfcount', k], [b'pfadd', k, b'x'], [b'getset', k, b'n'], [b'rename', k, b'd'], [b'dump', k], [b'exists', k, k]):
             yield Always(HOLDERS + [f, [b'type', k], [b'exists', b'd'], [b'type', b'd']])
+
+
+# ------------------------------------------------------------------ subscriber mode (C10)
+
+def subscriber_mode_cases():
+    """while subscribed only (P)SUBSCRIBE/(P)UNSUBSCRIBE/PING/QUIT are accepted: every other command, on existing and on missing keys, with good and bad arguments"""
+    mk = [[b'set', b'k', b'v'], [b'rpush', b'l', b'a'], [b'set', b'n', b'1']]
+    probes = [[b'get', b'k'], [b'get', b'nokey'], [b'llen', b'l'], [b'llen', b'nokey'], [b'lindex', b'nokey', b'0'], [b'lindex', b'l', b'0'], [b'llen', b'k'], [b'set', b'k', b'w'],
+              [b'del', b'k'], [b'incr', b'n'], [b'incr', b'k'], [b'exists', b'k'], [b'publish', b'ch', b'm'], [b'multi'], [b'exec'], [b'discard'], [b'watch', b'k'], [b'unwatch'],
+              [b'select', b'1'], [b'echo', b'x'], [b'dbsize'], [b'scan', b'0'], [b'type', b'k'], [b'ttl', b'k'], [b'flushall'], [b'lpop', b'nokey'], [b'blpop', b'l', b'0'],
+              [b'blpop', b'nokey', b'1'], [b'hget', b'nokey', b'f'], [b'zscore', b'nokey', b'm'], [b'smembers', b'nokey'], [b'get'], [b'nosuch'], [b'time'], [b'sort', b'l'],
+              [b'rpoplpush', b'nokey', b'l'], [b'mget', b'k', b'nokey'], [b'strlen', b'nokey'], [b'getrange', b'nokey', b'0', b'1'], [b'script', b'exists', b'x'], [b'save']]
+    for sub in ([b'subscribe', b'ch'], [b'psubscribe', b'c*'], [b'subscribe', b'a', b'b']):
+        for f in probes:
+            yield mk + [sub, f, [b'ping'], [b'unsubscribe'] if sub[0] == b'subscribe' else [b'punsubscribe'], f]
